@@ -54,13 +54,15 @@ func classKey(o *occ) string {
 	}
 }
 
-func occPos(r *scRender, o *occ) string { return fmt.Sprintf("%s:%d:%d", r.Files[o.File], o.Line, o.Col) }
+func occPos(r *scRender, o *occ) string {
+	return fmt.Sprintf("%s:%d:%d", r.Files[o.File], o.Line, o.Col)
+}
 
 // As-built reference semantics (known findings), in terms of the alternatives TLC attached:
-//   * the query position is resolved by the deviating definition lookup (any alt);
-//   * the occurrence search binds every occurrence ideally except for Dev_EmptyLocalReboundHidesDecl (alt.hide);
-//   * a global defined in both files is treated as one symbol per file (Dev_GlobalDefinedInTwoFilesSplit);
-//   * an assignment to global n inside `function n() .. end` is not listed (Dev_GlobalWriteInsideOwnFunction).
+//   - the query position is resolved by the deviating definition lookup (any alt);
+//   - the occurrence search binds every occurrence ideally except for Dev_EmptyLocalReboundHidesDecl (alt.hide);
+//   - a global defined in both files is treated as one symbol per file (Dev_GlobalDefinedInTwoFilesSplit);
+//   - an assignment to global n inside `function n() .. end` is not listed (Dev_GlobalWriteInsideOwnFunction).
 func keyOfBinding(name string, b int) string {
 	if b > 0 {
 		return fmt.Sprintf("L%d", b)
